@@ -29,9 +29,10 @@ type Opts struct {
 }
 
 type want struct {
-	typ  string
-	data []byte
-	ts   time.Time
+	typ   string
+	data  []byte
+	ts    time.Time
+	anyTS bool // the timestamp is chosen by the bus (time.Now())
 }
 
 // Driver runs store operations and records them.
@@ -40,6 +41,7 @@ type Driver struct {
 	rnd    *rand.Rand
 	lines  [][]byte
 	wants  map[int]want
+	wantTS map[int]time.Time
 	nextID int
 	toks   [][]string // per store: tokens handed out so far (resume points)
 	maxTok []string   // per store: greatest Append token so far
@@ -49,7 +51,7 @@ type Driver struct {
 }
 
 func NewDriver(env *Env, rnd *rand.Rand, firstID int) *Driver {
-	d := &Driver{env: env, rnd: rnd, wants: map[int]want{}, nextID: firstID}
+	d := &Driver{env: env, rnd: rnd, wants: map[int]want{}, wantTS: map[int]time.Time{}, nextID: firstID}
 	d.toks = make([][]string, len(env.Stores))
 	d.maxTok = make([]string, len(env.Stores))
 	d.napp = make([]int, len(env.Stores))
@@ -173,7 +175,7 @@ func (d *Driver) projEvents(evs []*eb.StoredEvent, s int) (out []map[string]any,
 			ok, why = false, fmt.Sprintf("event %d: type %q came back as %q", id, w.typ, e.Type)
 		} else if !jsonEqual(e.Data, w.data) {
 			ok, why = false, fmt.Sprintf("event %d: data %s came back as %s", id, w.data, e.Data)
-		} else if !e.Timestamp.Equal(w.ts) {
+		} else if !w.anyTS && !e.Timestamp.Equal(w.ts) {
 			ok, why = false, fmt.Sprintf("event %d: timestamp %s came back as %s", id, w.ts.Format(time.RFC3339Nano), e.Timestamp.Format(time.RFC3339Nano))
 		}
 		d.remember(s, string(e.Offset), true)
@@ -222,7 +224,7 @@ func (d *Driver) Append(s int, o Opts) {
 	doc := map[string]any{"id": id, "v": d.richJSON(0)}
 	data, _ := json.Marshal(doc)
 	ev := &eb.Event{Type: typeNames[d.rnd.IntN(len(typeNames))], Data: data, Timestamp: d.timestamp(o)}
-	d.wants[id] = want{ev.Type, data, ev.Timestamp}
+	d.wants[id] = want{typ: ev.Type, data: data, ts: ev.Timestamp}
 	off, err := d.env.Stores[s].Append(ctx, ev)
 	if err != nil {
 		d.fail("append", s, err)
@@ -303,6 +305,22 @@ func (d *Driver) Load(s int, sub string) {
 // the log order contradicts real time (an Append that had returned before another one was called must
 // come first).
 func (d *Driver) ConcurrentAppends(s int, workers, per int, o Opts) {
+	evs := map[int]*eb.Event{}
+	d.ConcurrentVia(s, workers, per, func(id int) (string, error) {
+		off, err := d.env.Stores[s].Append(context.Background(), evs[id])
+		return string(off), err
+	}, func(id int) (string, []byte) {
+		doc := map[string]any{"id": id, "v": d.richJSON(1)}
+		data, _ := json.Marshal(doc)
+		evs[id] = &eb.Event{Type: typeNames[d.rnd.IntN(len(typeNames))], Data: data, Timestamp: d.timestamp(o)}
+		d.wantTS[id] = evs[id].Timestamp
+		return evs[id].Type, data
+	})
+}
+
+// ConcurrentVia is ConcurrentAppends with the append made by `do` (directly, or through a bus); mk gives the
+// type and data the event with that id will be stored with.
+func (d *Driver) ConcurrentVia(s int, workers, per int, do func(id int) (string, error), mk func(id int) (string, []byte)) {
 	type rec struct {
 		id        int
 		tok       string
@@ -311,14 +329,15 @@ func (d *Driver) ConcurrentAppends(s int, workers, per int, o Opts) {
 	}
 	var clock atomic.Int64
 	recs := make([]rec, workers*per)
-	evs := make([]*eb.Event, workers*per)
 	for i := range recs {
 		id := d.nextID
 		d.nextID++
-		doc := map[string]any{"id": id, "v": d.richJSON(1)}
-		data, _ := json.Marshal(doc)
-		evs[i] = &eb.Event{Type: typeNames[d.rnd.IntN(len(typeNames))], Data: data, Timestamp: d.timestamp(o)}
-		d.wants[id] = want{evs[i].Type, data, evs[i].Timestamp}
+		typ, data := mk(id)
+		w := want{typ: typ, data: data, anyTS: true}
+		if ts, ok := d.wantTS[id]; ok {
+			w.ts, w.anyTS = ts, false
+		}
+		d.wants[id] = w
 		recs[i].id = id
 	}
 	var wg sync.WaitGroup
@@ -329,9 +348,9 @@ func (d *Driver) ConcurrentAppends(s int, workers, per int, o Opts) {
 			for k := 0; k < per; k++ {
 				i := w*per + k
 				recs[i].call = clock.Add(1)
-				off, err := d.env.Stores[s].Append(context.Background(), evs[i])
+				off, err := do(recs[i].id)
 				recs[i].ret = clock.Add(1)
-				recs[i].tok, recs[i].err = string(off), err
+				recs[i].tok, recs[i].err = off, err
 			}
 		}(w)
 	}
